@@ -184,4 +184,8 @@ def c08(a):
     return run('C08', 'proof', a, 'one obligation per (rounding function, float|double, configuration): the hardware rounding primitive with the right rounding-mode immediate (class P) or the reviewed conversion-based / add-subtract-2^p emulation (class I)')
 
 
-REGISTRY = {'C01': c01, 'C02': c02, 'C03': c03, 'C07': c07, 'C08': c08}
+def c09(a):
+    return run('C09', 'proof', a, 'one obligation per (reduction, element type, configuration): the scalar result (or haddp lane) flattened over its associative-commutative operator must be exactly the multiset of all lanes, each once (add, generic reduce) / every lane at least once (min, max)')
+
+
+REGISTRY = {'C01': c01, 'C02': c02, 'C03': c03, 'C07': c07, 'C08': c08, 'C09': c09}
